@@ -38,7 +38,7 @@ def plan(tier, seed):
 
 
 def mandatory(tier):
-    return ["ac/True", "ac/False", "D/2", "D/3", "compose_affine", "batch>1", "bracket", "bch_commuting", "bch_noncommuting", "bch_series_terms", "bracket/options/sigma", "bracket/options/sigma+spacing", "bracket/options/spacing", "logv", "logv/bch_terms/0", "logv/bch_terms/1", "logv/bch_terms/2", "logv/bch_terms/3"] + [f"bch_terms/{k}" for k in range(6)]
+    return ["ac/True", "ac/False", "D/2", "D/3", "compose_affine", "compose_after_other_convention", "batch>1", "bracket", "bch_commuting", "bch_noncommuting", "bch_series_terms", "bracket/options/sigma", "bracket/options/sigma+spacing", "bracket/options/spacing", "logv", "logv/bch_terms/0", "logv/bch_terms/1", "logv/bch_terms/2", "logv/bch_terms/3"] + [f"bch_terms/{k}" for k in range(6)]
 
 
 def to_samples(w, shape, ac):
@@ -94,6 +94,12 @@ def run_item(ctx, item):
         left = U.compose_flows(U.compose_flows(u, v, align_corners=ac), w_t, align_corners=ac)
         right = U.compose_flows(u, U.compose_flows(v, w_t, align_corners=ac), align_corners=ac)
         ctx.close("compose_associative_on_affine_fields", left, right, tol * 4, key="compose/associative", **info)
+        # the same call gives the same result whatever was composed before it (other convention, same shape / dtype)
+        # (composition with the zero field returns the other field sample by sample in either convention)
+        ctx.close("zero_is_left_identity_in_the_other_convention_too", U.compose_flows(zero, v, align_corners=not ac), v_np, tol, key="compose/history", **info)
+        ctx.bucket("compose_after_other_convention")
+        ctx.close("compose_unchanged_after_call_with_other_convention", U.compose_flows(u, v, align_corners=ac), ref, tol, key="compose/history", **info)
+        ctx.close("zero_is_left_identity_after_call_with_other_convention", U.compose_flows(zero, v, align_corners=ac), v_np, tol, key="compose/history", **info)
     # the convention matters: a field built for the other convention must not compose exactly (guards the oracle)
     # ---------------- (b) Lie bracket
     with ctx.guard("lie_bracket", **info):
